@@ -1384,7 +1384,9 @@ namespace xsimd
                         if (all(test))
                             return select(inf_result, constants::nan<batch_type>(), r);
                     }
-                    batch_type r1 = other(a);
+                    // the lanes below -34 are served by large_negative(): keep them out of the recurrences of other(),
+                    // whose trip count grows with the distance to 2 (and is unbounded for -inf)
+                    batch_type r1 = other(select(test, batch_type(1.), a));
                     batch_type r2 = select(test, r, r1);
                     return select(a == constants::minusinfinity<batch_type>(), constants::nan<batch_type>(), select(inf_result, constants::infinity<batch_type>(), r2));
                 }
